@@ -1274,3 +1274,6 @@ package lorawan
 //@ func lemmaC03_fopts_variant
 //@   props C03 C05
 //@   inlines (*PHYPayload).EncryptFOpts
+//@ func lemmaC03_fopts_two
+//@   props C03 C05
+//@   inlines (*PHYPayload).EncryptFOpts
